@@ -44,15 +44,43 @@ pub proof fn wf_order_at(ss: Seq<LuaScope>, i: int, a: int, b: int)
 pub proof fn wf_repeat_at(ss: Seq<LuaScope>, i: int)
     requires tree_wf(ss), 0 <= i < ss.len(), kd(ss, i) == LuaScopeKind::Repeat
     ensures ({ let b = first_scope(ss, i);
-        &&& i < b < ss.len() && kids(ss, i).len() > 0 && kids(ss, i)[0] is Scope && sidx(kids(ss, i)[0]) == b && par(ss, b) == i
-        &&& kd(ss, b) == LuaScopeKind::Normal
+        &&& body_kind() || b >= 0
         &&& forall|k: int| 0 <= k < kids(ss, i).len() ==> #[trigger] kids(ss, i)[k] is Scope
-        &&& forall|k: int| 0 <= k < kids(ss, b).len() ==> #[trigger] kids(ss, b)[k] is Scope })
+        &&& b >= 0 ==> {
+            &&& i < b < ss.len() && kids(ss, i).len() > 0 && kids(ss, i)[0] is Scope && sidx(kids(ss, i)[0]) == b && par(ss, b) == i
+            &&& block_kind(kd(ss, b))
+            &&& forall|k: int| 0 <= k < kids(ss, b).len() ==> #[trigger] kids(ss, b)[k] is Scope } })
 { reveal(tree_wf); assert(is_repeat(ss, i)); }
+/// body_kind(): the body block of a for / repeat scope is identified by what it is - the child scope of kind LoopBody; the place where
+/// the code looks for it (last child of a for scope, first child of a repeat scope) is where the builder puts it
+pub proof fn lemma_body_identity(ss: Seq<LuaScope>, s: int, p: int)
+    requires tree_wf(ss), 0 <= s < ss.len(), body_kind()
+    ensures
+        kd(ss, s) == LuaScopeKind::ForRange ==> (in_body(ss, s, p) <==> exists|k: int| 0 <= k < kids(ss, s).len()
+            && (#[trigger] kids(ss, s)[k] matches ScopeOrDeclId::Scope(sid) && is_lbk(kd(ss, sid.id as int)) && rng(ss, sid.id as int, p))),
+        kd(ss, s) == LuaScopeKind::Repeat ==> forall|k: int| 0 <= k < kids(ss, s).len()
+            && (#[trigger] kids(ss, s)[k] matches ScopeOrDeclId::Scope(sid) && is_lbk(kd(ss, sid.id as int))) ==> first_scope(ss, s) == sidx(kids(ss, s)[k]),
+{
+    reveal(tree_wf);
+    let ks = kids(ss, s);
+    if kd(ss, s) == LuaScopeKind::ForRange {
+        if in_body(ss, s, p) { assert(ks.last() == ks[ks.len() - 1]); }
+        if exists|k: int| 0 <= k < ks.len() && (#[trigger] ks[k] matches ScopeOrDeclId::Scope(sid) && is_lbk(kd(ss, sid.id as int)) && rng(ss, sid.id as int, p)) {
+            let k = choose|k: int| 0 <= k < ks.len() && (#[trigger] ks[k] matches ScopeOrDeclId::Scope(sid) && is_lbk(kd(ss, sid.id as int)) && rng(ss, sid.id as int, p));
+            assert(is_lb(ss, sidx(ks[k])));
+        }
+    }
+    if kd(ss, s) == LuaScopeKind::Repeat {
+        assert forall|k: int| 0 <= k < ks.len() && (#[trigger] ks[k] matches ScopeOrDeclId::Scope(sid) && is_lbk(kd(ss, sid.id as int)))
+            implies first_scope(ss, s) == sidx(ks[k]) by {
+            assert(is_lb(ss, sidx(ks[k])));
+        }
+    }
+}
 
 pub proof fn wf_stmt_at(ss: Seq<LuaScope>, i: int)
     requires tree_wf(ss), 0 <= i < ss.len(), stmt_kind(kd(ss, i))
-    ensures st(ss, i) < en(ss, i), i > 0, 0 <= par(ss, i) < i, kd(ss, par(ss, i)) == LuaScopeKind::Normal,
+    ensures st(ss, i) < en(ss, i), i > 0, 0 <= par(ss, i) < i, block_kind(kd(ss, par(ss, i))),
         forall|k: int| 0 <= k < kids(ss, i).len() ==> (#[trigger] kids(ss, i)[k] is Decl ==> st(ss, i) <= cpos(ss, kids(ss, i)[k]) < en(ss, i))
 { reveal(tree_wf); assert(is_stmt(ss, i)); }
 
@@ -482,7 +510,8 @@ pub proof fn lemma_level_sound(ss: Seq<LuaScope>, i: int, pos: int, x: ScopeOrDe
 }
 /// the names of the statements of a repeat body, seen from the rest of the repeat statement
 pub proof fn lemma_body_level_sound(ss: Seq<LuaScope>, rp: int, pos: int, x: ScopeOrDeclId)
-    requires tree_wf(ss), 0 <= rp < ss.len(), kd(ss, rp) == LuaScopeKind::Repeat, inside(ss, rp, pos), level_vis(ss, first_scope(ss, rp), x, pos)
+    requires tree_wf(ss), 0 <= rp < ss.len(), kd(ss, rp) == LuaScopeKind::Repeat, inside(ss, rp, pos), first_scope(ss, rp) >= 0,
+        level_vis(ss, first_scope(ss, rp), x, pos)
     ensures x is Decl, visible(ss, x->Decl_0, pos, false)
 {
     wf_repeat_at(ss, rp);
@@ -569,7 +598,8 @@ pub proof fn lemma_search_sound(ss: Seq<LuaScope>, i: int, p: int, pos: int)
 }
 /// soundness of the search of a repeat body from the rest of the repeat statement
 pub proof fn lemma_body_search_sound(ss: Seq<LuaScope>, rp: int, p: int, pos: int)
-    requires tree_wf(ss), 0 <= rp < ss.len(), kd(ss, rp) == LuaScopeKind::Repeat, inside(ss, rp, pos), ctx0(ss, first_scope(ss, rp), p, pos)
+    requires tree_wf(ss), 0 <= rp < ss.len(), kd(ss, rp) == LuaScopeKind::Repeat, inside(ss, rp, pos), first_scope(ss, rp) >= 0,
+        ctx0(ss, first_scope(ss, rp), p, pos)
     ensures sound_seq(ss, m_search(ss, first_scope(ss, rp), p), pos)
 {
     wf_repeat_at(ss, rp);
@@ -626,11 +656,15 @@ pub proof fn lemma_up(ss: Seq<LuaScope>, u: int, p: int, pos: int)
         if kd(ss, i) == LuaScopeKind::Repeat {
             wf_repeat_at(ss, i);
             let body = first_scope(ss, i);
-            if b != 0 {
-                wf_order_at(ss, i, 0, b);
-                lemma_ctx_aside(ss, body, p, pos);
+            if body >= 0 {
+                if b != 0 {
+                    wf_order_at(ss, i, 0, b);
+                    lemma_ctx_aside(ss, body, p, pos);
+                }
+                lemma_body_search_sound(ss, i, p, pos);
+            } else {
+                lemma_sound_empty(ss, pos);
             }
-            lemma_body_search_sound(ss, i, p, pos);
             assert(t == a_s + bs + cs);
         } else {
             assert(t == bs + cs);
@@ -699,6 +733,23 @@ pub proof fn lemma_entry(ss: Seq<LuaScope>, l: int, pos: int)
                     let kc = choose|kc: int| 0 <= kc < kids(ss, s).len() && (#[trigger] kids(ss, s)[kc] matches ScopeOrDeclId::Scope(sid) && rng(ss, sid.id as int, pos));
                     assert(false);
                 }
+            }
+        }
+    } else if kd(ss, l) == LuaScopeKind::Repeat && first_scope(ss, l) < 0 {
+        // a repeat statement with an empty body: nothing of its own, on to the enclosing scopes
+        wf_repeat_at(ss, l);
+        if l > 0 {
+            assert(chain_step(ss, l, pos, pos));
+            lemma_up(ss, l, pos, pos);
+        } else {
+            assert(t =~= Seq::<ScopeOrDeclId>::empty());
+        }
+        assert forall|s: int, k: int, d: LuaDeclId| 0 <= s < ss.len() && #[trigger] is_decl_child(ss, s, k, d) && region(ss, s, d, pos, false) && lvl(ss, s, pos) <= l
+            implies t.contains(ScopeOrDeclId::Decl(d)) by {
+            lemma_lvl_chain(ss, s, k, d, pos, l);
+            if lvl(ss, s, pos) == l {
+                if stmt_kind(kd(ss, s)) { wf_stmt_at(ss, s); }
+                assert(false);
             }
         }
     } else if kd(ss, l) == LuaScopeKind::Repeat {
@@ -1023,7 +1074,7 @@ pub proof fn lemma_ord_body(ss: Seq<LuaScope>, u: int, b: int, p: int, pos: int,
     let body = first_scope(ss, i);
     let a_s = up_body(ss, i, p);
     lemma_beta(ss, i, b);
-    if kd(ss, i) == LuaScopeKind::Repeat {
+    if kd(ss, i) == LuaScopeKind::Repeat && body >= 0 {
         wf_repeat_at(ss, i);
         lemma_search_ordered(ss, body, p);
         assert forall|a: int, b1: int| #[trigger] cross_pair(x, a_s, a, b1) by {
@@ -1215,6 +1266,18 @@ pub proof fn lemma_entry_ord(ss: Seq<LuaScope>, l: int, pos: int)
         lemma_up_ord(ss, l, kl, st(ss, l), pos, e);
         assert(e + m_up(ss, l, st(ss, l)) =~= t);
     } else if kd(ss, l) == LuaScopeKind::ForRange {
+        if l > 0 {
+            let kl = wf_parent(ss, l);
+            assert(chain_step(ss, l, pos, pos));
+            if kd(ss, par(ss, l)) == LuaScopeKind::Repeat { wf_repeat_at(ss, par(ss, l)); }
+            assert(lower_ok(ss, l, kl, pos, e));
+            lemma_up_ord(ss, l, kl, pos, pos, e);
+            assert(e + m_up(ss, l, pos) =~= t);
+        } else {
+            assert(t =~= e);
+        }
+    } else if kd(ss, l) == LuaScopeKind::Repeat && first_scope(ss, l) < 0 {
+        wf_repeat_at(ss, l);
         if l > 0 {
             let kl = wf_parent(ss, l);
             assert(chain_step(ss, l, pos, pos));
